@@ -213,6 +213,26 @@ def run(ctx):
             ctx.ob("C19.c", qn, prog.exc_is(exc, CLOUDERR), f"API error codes raise {exc.split('.')[-1]} (a CloudError)", func=qn, file=file, node=node,
                    fail=f"API error codes raise {exc}, not a CloudError")
             ctx.count("api_errors")
+    # ---------------------------------------------------------------- C19.a (shared client) only a logged-in client is cached
+    # Discover._get_cloud keeps the client for every later device of the run: caching it before login() has completed hands later
+    # devices a client without a session after one transient login failure.
+    gcl = ctx.fn(f"{DISC}._get_cloud")
+    from ..absint import EventAnalysis, run_events
+
+    def on_login(node, st):
+        if isinstance(node, (ast.FunctionDef, ast.AsyncFunctionDef)):
+            return []
+        return ["logged_in"] if any(isinstance(c, ast.Call) and isinstance(c.func, ast.Attribute) and c.func.attr == "login" for c in ast.walk(node)) else []
+    eal = EventAnalysis(must=True, on_stmt=on_login)
+    run_events(prog, gcl, eal)
+    n_cache = 0
+    for node, st in eal.at.items():
+        if isinstance(node, ast.Assign) and any(isinstance(t, ast.Attribute) and t.attr == "_cloud" and isinstance(t.value, ast.Name) and t.value.id in (gcl.params[0], "Discover")
+                                                for t in node.targets) and not (isinstance(node.value, ast.Constant) and node.value.value is None):
+            n_cache += 1
+            ctx.ob("C19.a", gcl.qual, "logged_in" in st, "the shared cloud client is cached only after its login() completed", func=gcl.qual, file=gcl.module.rel, node=node,
+                   fail="the cloud client is cached before login() has completed: after a failed first login later devices use a client without a session")
+    ctx.count("cloud_cache_stores", n_cache)
     # ---------------------------------------------------------------- C19.d
     ad = ctx.fn(f"{DISC}._authenticate_device")
     ads = summarize(prog, ad)
@@ -262,6 +282,7 @@ def run(ctx):
         u_ok = h(a) and h(b) and (a[2], a[3]) == (None, ("const", 16)) and (b[2], b[3]) == (("const", 16), None)
     ctx.ob("C19.d", ud.qual, u_ok, "udpid = sha256(id)[:16] xor sha256(id)[16:]", func=ud.qual, file=ud.module.rel, construct="udpid", detail={"term": show(ut)[:200]},
            fail=f"udpid derivation is `{show(ut)[:160]}`")
+    ctx.require_min("cloud_cache_stores", 1)
     ctx.require_min("post_sites", 1)
     ctx.require_min("token_returns", 1)
     ctx.require_min("budgets", 3)
